@@ -1,5 +1,5 @@
 // C16 channel C: the rendered Naunet::SetReferenceAbund / Naunet::Renorm (cvode) run on one object:
-// argv[1] = reference vector (comma separated, NEQUATIONS values), argv[2..] = vectors to renormalise in order.
+// argv[1] = reference: NEQUATIONS abundances, or "opt0:" + NELEMENTS per-element values; argv[2..] = vectors to renormalise in order.
 // Prints one line per vector: the renormalised abundances.
 #define MOCK_NO_MAIN
 #include "mock_cvode.cpp"
@@ -14,8 +14,11 @@ static std::vector<double> parse(const char *s) {
 int main(int argc, char **argv) {
     Naunet n;
     if (n.Init(1, 1e-20, 1e-5, 500) != NAUNET_SUCCESS) { printf("init-failed\n"); return 2; }
-    std::vector<double> ref = parse(argv[1]);
-    n.SetReferenceAbund(ref.data(), 1);
+    // "opt0:<NELEMENTS values>" = per-element reference values; otherwise NEQUATIONS abundances (opt 1)
+    std::string a1 = argv[1];
+    int opt = a1.rfind("opt0:", 0) == 0 ? 0 : 1;
+    std::vector<double> ref = parse(opt == 0 ? argv[1] + 5 : argv[1]);
+    n.SetReferenceAbund(ref.data(), opt);
     for (int a = 2; a < argc; a++) {
         std::vector<double> ab = parse(argv[a]);
         int flag = n.Renorm(ab.data());
